@@ -8,6 +8,7 @@ import (
 	"io"
 	"os"
 	"runtime"
+	"strings"
 	"unicode/utf8"
 
 	"github.com/cockroachdb/redact"
@@ -84,9 +85,21 @@ func runWriters(c *lib.Ctx, h []lib.SOp) (outs [3][]byte, panicked string) {
 	}()
 	var sb redact.StringBuilder
 	runWriterOps(c, h, &sb, &sb)
-	outs[0] = []byte(sb.RedactableString())
-	outs[1] = []byte(redact.Sprintfn(func(w redact.SafePrinter) { runWriterOps(c, h, w, w) }))
-	outs[2] = []byte(redact.Sprint(sfOps{c, h}))
+	s0 := string(sb.RedactableString())
+	outs[0] = []byte(s0)
+	s1 := string(redact.Sprintfn(func(w redact.SafePrinter) { runWriterOps(c, h, w, w) })) // no copy: the returned string itself
+	outs[1] = []byte(s1)
+	s2 := string(redact.Sprint(sfOps{c, h}))
+	outs[2] = []byte(s2)
+	// a result must not change once returned: later printing (here: through pooled printers) must leave it alone
+	for i := 0; i < 4; i++ {
+		_ = redact.Sprintf("%s|%d|%v", "xxxxxxxxxxxxxxxxxxxxxxxx", 123456789, redact.Safe("yyyyyyyyyyyyyyyyyyyy"))
+		var sb2 redact.StringBuilder
+		sb2.Printf("%s", "zzzzzzzzzzzzzzzzzzzzzzzzzzzzzzzzzzz")
+	}
+	if s0 != string(outs[0]) || s1 != string(outs[1]) || s2 != string(outs[2]) {
+		panicked = fmt.Sprintf("RESULT-MUTATED: a returned string changed after later print calls: %q / %q / %q", s0, s1, s2)
+	}
 	return
 }
 
@@ -166,6 +179,10 @@ func judgeWriter(rep *lib.Report, prop string, c *lib.Ctx, h []lib.SOp, outs [3]
 	kase := writerCase{"writer", h}
 	is := func(p string) bool { return prop == p || prop == "ALL" }
 	desc := opsString(h)
+	if strings.HasPrefix(panicked, "RESULT-MUTATED") {
+		rep.Violate("writer:result-mutated", fmt.Sprintf("%s: %s", desc, panicked), kase)
+		return
+	}
 	if panicked != "" {
 		if is("C11") || is("C09") {
 			rep.Violate("writer:panic", fmt.Sprintf("%s: panic %s", desc, panicked), kase)
